@@ -3,15 +3,16 @@ import Verif.Model.SignNames
   Line-protocol driver for C03 (X.509 token signing: names, key, provisioner extension).
 
   One sign request per line, `key=value` fields separated by single spaces:
-    prov=jwk|x5c|oidc|oidcadm|nebula|k8ssa|acme|scep  tpl=0|1  gen=x<hex DER>
+    prov=jwk|x5c|oidc|oidcadm|nebula|k8ssa|acme|scep|aws|awsdcs  tpl=0|1  gen=x<hex DER>
     adr= aex= aae=   authority-level claims disableRenewal / disableSmallstepExtensions / allowRenewalAfterExpiry (-|0|1)
-    pdr= pex= pae=   the provisioner's own claims
+    pdr= pex= pae=   the provisioner's own claims (as configured); conv=1: they went through the admin-database form
     sub=<san>  sans=<san>,…|-  cnf=-|!|0|1  oem=<san>|-  oiss=<san>|-  nbn=<san>|-  nbi=x<ip>,…|-   (Nebula certificate name / addresses)
     sig=0|1  ccn=x<hex>  cdns= cip= cem= curi=   (lists of x<hex>, `-` when empty)
     key=<n>  keyok=0|1  cext=<ext>,…|-  ud=0|1  uext=<ext>,…|-  uoth=<n>  uok=0|1 (user `extensions` decode as extensions)  enct=0|1  encc=0|1  whe=-|0|1  wha=-|0|1  [ra=1 rgen=x<DER>: authority in RA mode, extension of the issuing CA's provisioner]   (answers of the ENRICHING / AUTHORIZING webhook)
   san = `d|i|e|u` `:` x<raw> `:` x<canonical>;  ext = `<oid number>:x<value>` (oid 0 = provisioner OID)
   `src fn=signX509|jwk|x5c|oidc|nebula|k8ssa|acme|scep|allsign` prints the source-order tables of the model (compared with what
   harness/cmd/c03_src derives from the Go source).
+  [via=api: the request goes through the real router and api.Sign; refusals are printed as http:<status>]
   Output: unauth:<status> | refuse:<status> | error | issue cn=… dns=… ip=… em=… uri=… key=<n> ext=… | parse-error
 -/
 open Verif Verif.SignNames
@@ -58,7 +59,8 @@ def prov? (t : String) : Option Prov :=
   | "jwk" => some .jwk | "x5c" => some .x5c
   | "oidc" => some (.oidc false) | "oidcadm" => some (.oidc true)
   | "nebula" => some .nebula | "k8ssa" => some .k8ssa
-  | "acme" => some .acme | "scep" => some .scep | _ => none
+  | "acme" => some .acme | "scep" => some .scep
+  | "aws" => some (.aws false) | "awsdcs" => some (.aws true) | _ => none
 
 def lookup (kv : List (String × String)) (k : String) : Option String :=
   (kv.find? (·.1 = k)).map (·.2)
@@ -78,6 +80,7 @@ def evalSrc (fn : String) : Option String :=
   | "oidc" => some (" ".intercalate ((optionSource (.oidc false)).map Opt.str))
   | "nebula" => some (" ".intercalate ((optionSource .nebula).map Opt.str))
   | "k8ssa" => some (" ".intercalate ((optionSource .k8ssa).map Opt.str))
+  | "aws" => some (" ".intercalate ((optionSource (.aws true)).map Opt.str))
   | "acme" => some (" ".intercalate ((optionSource .acme).map Opt.str))
   | "scep" => some (" ".intercalate ((optionSource .scep).map Opt.str))
   | "allsign" => some (" ".intercalate (allSignSource.map fun e => e.1 ++ ":" ++ e.2.str))
@@ -94,8 +97,8 @@ def eval (line : String) : Option String := do
   let get := fun k => lookup kv k
   let cfg : Cfg := {
     prov := (← prov? (← get "prov")), hasTemplate := (← bool? (← get "tpl")),
-    authClaims := ⟨(← tri? (← get "adr")), (← tri? (← get "aex")), (← tri? (← get "aae"))⟩,
-    provClaims := ⟨(← tri? (← get "pdr")), (← tri? (← get "pex")), (← tri? (← get "pae"))⟩,
+    authClaims := ⟨(← tri? (← get "adr")), (← tri? (← get "aex")), (← tri? (← get "aae")), false⟩,
+    provClaims := ⟨(← tri? (← get "pdr")), (← tri? (← get "pex")), (← tri? (← get "pae")), (get "conv") = some "1"⟩,
     gen := ⟨0, (← str? (← get "gen"))⟩ }
   let tok : Token := {
     sub := (← san? (← get "sub")), sans := (← list? san? (← get "sans")),
@@ -111,8 +114,17 @@ def eval (line : String) : Option String := do
   let ud : UserData := { exts := (← list? ext? (← get "uext")), other := (← (← get "uoth").toNat?), extsOK := (← bool? (← get "uok")) }
   let enc : Enc := ⟨(← bool? (← get "enct")), (← bool? (← get "encc")), (← tri? (← get "whe")), (← tri? (← get "wha"))⟩
   let ra ← bool? ((get "ra").getD "0")
-  let res := if ra then raRequest cfg ⟨0, ((get "rgen").bind str?).getD []⟩ tok csr (if hasUd then some ud else none) enc
+  let viaAPI := (get "via") = some "api"
+  let res := if viaAPI ∧ !ra then httpSign cfg tok csr (if hasUd then some ud else none) enc
+             else if ra then raRequest cfg ⟨0, ((get "rgen").bind str?).getD []⟩ tok csr (if hasUd then some ud else none) enc
              else request cfg tok csr (if hasUd then some ud else none) enc
+  if viaAPI then
+    -- `read.JSON` fails (400) before anything else when the body is not JSON (templateData that is
+    -- not a JSON value cannot be embedded in a JSON body)
+    if (get "badbody") = some "1" then return "http:400"
+    match res with
+    | .issued c => return certS c
+    | r => return s!"http:{r.status}"
   match res with
   | .unauthorized st => pure s!"unauth:{st}"
   | .refused st => pure s!"refuse:{st}"
